@@ -11,11 +11,16 @@ class C01(UtfCheck):
     rule = ('well-formed input only. directed: every boundary scalar {0,7F,80,7FF,800,D7FF,E000,FFFF,10000,10FFFF} alone and '
             'first/interior/last next to a 1-,2-,3-,4-byte neighbour, through every function x every route (.ptr .buf .u8 .std '
             '.view .ctor* .set* .assign* .cstr .lit .to .tobuf .std) x every validation mode x both Latin-1 flags; all 256 '
-            'Latin-1 bytes in every position to UTF-8/16/32/wchar and back; digest enumeration of one-character strings over '
+            'Latin-1 bytes in every position to UTF-8/16/32/wchar and back; block-wise shapes (a wide character / a byte >= 0x80 '
+            'at every offset 0..39 of 40 units of ASCII, in the first/middle/last block of 63..65 units, whole blocks of 7..33 wide '
+            'characters, exact multiples of 8) through every function; digest enumeration of one-character strings over '
             'scalar ranges (quick: blocks around every width boundary + seeded blocks; thorough: every scalar value through '
             'every function); seeded random sequences of mixed widths with random route/mode. '
             'expected = Spec standard encoding (utf8_enc/utf16_enc by range, / and mod). non-trivial = non-empty input; '
             'distinct = distinct case line')
+    partial = ('routes_covered (every overload of the API inventory is modelled) is not a Coq obligation: Gen/Api.v is not generated; '
+               'the overload list is the harness route table (utf_gen.routes_for). 16-bit wchar_t instantiations are not compiled on this '
+               'platform and not claimed (the model selects the branch from Gen/Consts.sizeof_wchar).')
     modelled_not_verified = (
         'C++ semantics of the transcribed statements (LP64, 32-bit signed wchar_t, integer promotions) are modelled, not verified',
         'ST::buffer<T> construction/assignment/allocate are modelled as exact-size arrays with a terminator (their own behaviour is C05)',
@@ -64,6 +69,35 @@ class C01(UtfCheck):
                             yield c
                 yield case('str_to_latin_1', 'to', '_', '1', encode('8', sc), sc)
                 yield case('str_to_latin_1', 'std', '_', '0', encode('8', sc), sc)
+        # 2b. block-wise shapes: the wide character at every offset of 40 units of ASCII, in the first / middle / last
+        #     block of 63..65 units, whole blocks of wide characters; every function, pointer route (exact-size block)
+        #     with the mode rotating, buffer / ST::string routes for a third of them
+        for i, sc in enumerate(block_scalars()):
+            for kind, fns in FN_BY_SRC.items():
+                if kind == 'l1':
+                    continue
+                u = encode(kind, sc)
+                for fn in fns:
+                    if ALL_FN[fn][1] == 'l1':
+                        continue
+                    yield case(fn, 'ptr', MODES[i % 3], '_', u, sc)
+                    if i % 3 == 0:
+                        yield case(fn, 'buf', MODES[(i // 3) % 3], '_', u, sc)
+            if i % 2 == 0:
+                u8 = encode('8', sc)
+                for fn in STR_TO_FNS[1:4]:
+                    yield case(fn, 'to', '_', '_', u8, sc)
+        for i, b in enumerate(block_latin1()):
+            for fn in FN_BY_SRC['l1']:
+                yield case(fn, 'ptr', '_', '_', b, b)
+                if i % 4 == 0:
+                    yield case(fn, 'buf', '_', '_', b, b)
+            for kind in ('8', '16', '32'):
+                fn = {'8': 'utf8_to_latin_1', '16': 'utf16_to_latin_1', '32': 'utf32_to_latin_1'}[kind]
+                yield case(fn, 'ptr', MODES[i % 3], str(i % 2), encode(kind, b), b)
+            if i % 4 == 0:
+                yield case('wchar_to_latin_1', 'ptr', MODES[i % 3], '1', encode('32', b), b)
+                yield case('str_to_latin_1', 'to', '_', '1', encode('8', b), b)
         # 3. default-mode overloads (this build: check_validity)
         for sc in ([0x41, 0xE9, 0x20AC, 0x1F600], [0x10FFFF], []):
             for kind, fns in FN_BY_SRC.items():
